@@ -563,3 +563,71 @@ def r7(R):
                         key='neighbouring prefix asked with the wrong '
                             'extreme')
     R.require(n >= 2, 'minKey/maxKey not found')
+
+
+# ------------------------------------------------------------------ C19.R9
+@rule('C19.R9', 'when a bounded min/max query decides by comparing the '
+      'bound\'s suffix with the bucket\'s extreme key whether the answer is '
+      'in this bucket, the boundary case -- the bound IS that extreme key -- '
+      'stays in the bucket (the key itself is the answer)',
+      min_instances=2)
+def r9(R):
+    cls = R.prog.cls('ZODB.fsIndex.fsIndex')
+    for meth in ('minKey', 'maxKey'):
+        f = R.method(cls, meth)
+        R.instance('fsIndex.%s' % meth)
+        params = [p for p in f.params if p != 'self']
+
+        def is_suffix(e):
+            return isinstance(e, ast.Subscript) and isinstance(
+                e.slice, ast.Slice) and isinstance(e.value, ast.Name) and \
+                e.value.id in params and e.slice.lower is not None and \
+                e.slice.upper is None
+
+        def is_extreme(e):
+            return isinstance(e, ast.Call) and isinstance(
+                e.func, ast.Attribute) and e.func.attr in (
+                    'minKey', 'maxKey') and not e.args and not e.keywords
+
+        def in_bucket(stmts):
+            return any(isinstance(c, ast.Call) and isinstance(
+                c.func, ast.Attribute) and c.func.attr in (
+                    'minKey', 'maxKey') and c.args and any(
+                        is_suffix(x) for x in ast.walk(c.args[0]))
+                for s_ in stmts for c in ast.walk(s_))
+
+        for t in walk_local(f.node):
+            if not isinstance(t, ast.If):
+                continue
+            test, neg = t.test, False
+            while isinstance(test, ast.UnaryOp) and isinstance(
+                    test.op, ast.Not):
+                test, neg = test.operand, not neg
+            if not (isinstance(test, ast.Compare) and len(test.ops) == 1):
+                continue
+            l, r = test.left, test.comparators[0]
+            if not ((is_suffix(l) and is_extreme(r)) or
+                    (is_extreme(l) and is_suffix(r))):
+                continue
+            op = test.ops[0]
+            if not isinstance(op, (ast.Lt, ast.LtE, ast.Gt, ast.GtE)):
+                continue
+            equal_truth = isinstance(op, (ast.LtE, ast.GtE)) != neg
+            body_in, else_in = in_bucket(t.body), in_bucket(t.orelse)
+            if body_in == else_in:
+                continue                 # not the in-bucket decision
+            taken_in_bucket = body_in if equal_truth else else_in
+            if not taken_in_bucket:
+                R.violation(
+                    (f.module.relpath, f.qualname,
+                     ' '.join(ast.unparse(t.test).split()), t.lineno),
+                    'fsIndex.%s decides with `%s` whether the answer lies '
+                    'in the bound\'s own bucket: when the bound IS the '
+                    'bucket\'s extreme key the test sends the query on to '
+                    'the neighbouring bucket -- %s(k) for a key k that is '
+                    'the first (last) of its bucket answers with a key of '
+                    'another bucket, or raises ValueError, although k '
+                    'itself is in the index' % (
+                        meth, ' '.join(ast.unparse(t.test).split()), meth),
+                    key='boundary case of the in-bucket test leaves the '
+                        'bucket')
